@@ -114,7 +114,10 @@ Print Assumptions C06_ws_insignificant.
     which the printer puts the output names, the reference names and the amounts.  The family covers
       - every name part quoted (either quote, every character raw / escaped) or braced (text and number
         parts in every layout), segments separated by arbitrary horizontal space (which is part of the name);
-      - amounts: none; unit-less quantity [2 'eggs']; [n *]; [n %] (every number layout);
+      - amounts (every number layout): none; unit-less quantity [2 'eggs']; quantity with ANY unit name of the
+        generated table in any letter case / inner spacing, with or without space before it, optionally followed by
+        "of" / "of the" [2 Kg of the 'flour'] (reusing C12's recognition theorems); [n of (the)]; [n %] and
+        [n % of (the)]; [n *].  NOT covered: explicit quantities [{2 "sprigs"}] and the remainder words;
       - steps with any number of inputs, nesting to any depth, arbitrary whitespace (line breaks included)
         around parentheses and commas, optional trailing comma;
       - left-to-right shorthand at statement level and inside parentheses;
@@ -141,11 +144,28 @@ Definition C06_example_recipe : precipe :=
            (XStep (mkName (SQ 34 [MRaw; MRaw; MRaw; MRaw; MEscLetter] (s "boil" ++ [10])) []) [32] []
               (XRef (Some (AmNum (NTInt 0 2), [])) (nm "tomatoes"))
               [([32], [], XRef None (mkName (SB [BStr (s "a") []]) []));
-               ([10; 32; 32], [32], XRef (Some (AmPercent (NTInt 0 50) [32], [32])) (mkName (SB [BNum (NTInt 0 1)]) []))]
+               ([10; 32; 32], [32], XRef (Some (AmPercent (NTInt 0 50) [32] None, [32])) (mkName (SB [BNum (NTInt 0 1)]) []))]
               (Some [32]) [])
            [] ([], Some (10, []));
       mkPS None (XParen [] (XStep (nm "fry") [] [] (XRef None (nm "sauce")) [] None []) [] [])
            [([32], [32], nm "serve")] ([], None) ].
+
+Definition C06_example_recipe2 : precipe :=
+  let nm (x : string) := mkName (SQ 39 [] (s x)) [] in
+  mkPR []
+    [ mkPS None (XStep (nm "mix") [] []
+                   (XRef (Some (AmUnit (NTInt 0 2) [32] (s "kg") (s "Kg") (Some ([32], PwOfThe (s "OF") [32; 32] (s "the"))), [32])) (nm "flour"))
+                   [([], [32], XRef (Some (AmUnit (NTDec (s "1") (s "5")) [] (s "tea spoons") (s "Tea  Spoons") None, [])) (nm "salt"));
+                    ([], [32], XRef (Some (AmOf (NTFrac 0 1 [] 0 2) [32] (PwOf (s "of")), [32])) (nm "sauce"));
+                    ([], [32], XRef (Some (AmPercent (NTInt 0 50) [] (Some ([32], PwOf (s "oF"))), [9])) (nm "stock"))]
+                   None [])
+           [] ([], None) ].
+
+Example C06_roundtrip_quoted_ex2 :
+  recipe_ok C06_example_recipe2 = true /\
+  print_recipe C06_example_recipe2 = s "'mix'(2 Kg OF  the 'flour', 1.5Tea  Spoons'salt', 1/2 of 'sauce', 50% oF" ++ [9] ++ s "'stock')" /\
+  parse (print_recipe C06_example_recipe2) = POk (value_recipe C06_example_recipe2).
+Proof. vm_compute. repeat split; reflexivity. Qed.
 
 Example C06_roundtrip_quoted_ex :
   recipe_ok C06_example_recipe = true /\
